@@ -481,6 +481,9 @@ func summarize(reps []*FuncReport) string {
 			if o.Cover {
 				good = !good
 			}
+			if good && !o.Cover && o.Result.Seconds > 5 {
+				fmt.Fprintf(&sb, "    SLOW %-60s %s (%s %.2fs)\n", o.Name, o.Result.Status, o.Result.Solver, o.Result.Seconds)
+			}
 			if !good {
 				fmt.Fprintf(&sb, "    FAIL %-60s %s (%s %.2fs) %s:%d %s\n", o.Name, o.Result.Status, o.Result.Solver, o.Result.Seconds, shortFile(o.Pos.Filename), o.Pos.Line, o.Text)
 			}
